@@ -4,6 +4,7 @@ package main
 
 import (
 	"encoding/json"
+	"os"
 
 	"github.com/ipfs/boxo/verifshim/eng"
 	"github.com/ipfs/boxo/verifshim/vexp"
@@ -25,7 +26,9 @@ func main() {
 		r.Assume("the base store is a harness fake (map + fault script) that answers like the default blockstore and enumerates a point-in-time snapshot unless the scenario says live")
 		r.Assume("hashicorp/golang-lru 2Q and ipfs/bbloom are not rewritten: their internal locks are never held across a scheduling point")
 		r.Assume("overlapping calls may linearize in either order; each block of a PutMany may take effect separately within the call")
-		eng.ExploreSeq(r, spec(r))
+		if os.Getenv("VERIF_SKIP_SEQ") == "" { // debugging aid only
+			eng.ExploreSeq(r, spec(r))
+		}
 		if !r.Expired() {
 			vexp.Explore(r, concScenarios(r.Thorough()), vexp.Options{Bound: eng.Pick(r, 2, 3)})
 		} else {
